@@ -233,25 +233,31 @@ ContentFailClass(cfg, rel, dflt) ==
 
 Vd(ok, tags, j) == [ok |-> ok, tags |-> tags, j |-> j]
 
-Resync(ev, viaFile) == IF ~ev.tenc /\ AllEq(ev.items, viaFile) THEN "plain" ELSE "lost"
+Resync(cfg, ev, viaFile) == IF ~ev.tenc /\ ev.nobj = cfg.nobj0 /\ AllEq(ev.items, viaFile) THEN "plain" ELSE "lost"
 
-\* content: the tag for "some item is not restored" (a narrow class where the call belongs to one)
-RestoredTags(cfg, ev, viaFile, content) ==
+\* content: the tag for "some item is not restored" (a narrow class where the call belongs to one); rev: the document
+\* was read from a file of several revisions with object streams
+RestoredTagsR(cfg, ev, viaFile, content, rev) ==
     LET bad == {i \in 1..Len(ev.items) : Demanded(ev.items[i], viaFile) /\ ~(ev.items[i].present /\ ev.items[i].eq)} IN
     (IF ev.tenc \/ ev.nobj # cfg.nobj0 THEN {"restored.encdict"} ELSE {})
     \cup (IF bad = {} THEN {}
           \* only copies held by object stream containers came back, everything else is fine: its own class
-          ELSE IF (\A i \in bad : ev.items[i].osm) /\ (\E i \in 1..Len(ev.items) : ~ev.items[i].osm /\ ev.items[i].len > 0 /\ ev.items[i].otyp \notin Bookkeeping)
+          ELSE IF (\A i \in bad : ev.items[i].osm) /\ (rev \/ \E i \in 1..Len(ev.items) : ~ev.items[i].osm /\ ev.items[i].len > 0 /\ ev.items[i].otyp \notin Bookkeeping)
           THEN {"restored.objstm.member"}
           ELSE {content})
+RestoredTags(cfg, ev, viaFile, content) == RestoredTagsR(cfg, ev, viaFile, content, FALSE)
+
+\* j.rev (the document was read from a file of several revisions with object streams): a member that comes back with
+\* another value is the copy of a superseded revision
+RevClass(j, t) == IF j.rev THEN {IF c = "restored.objstm.member" THEN "objstm.revision.stale" ELSE c : c \in t} ELSE t
 
 JudgeEncrypt(cfg, j, ev) ==
     IF j.mem # "plain" \/ ~j.st THEN Vd(TRUE, {"ok-unjudged"}, [j EXCEPT !.mem = IF ev.same THEN j.mem ELSE "lost"])
-    ELSE IF ev.res # "Ok" THEN Vd(FALSE, {"encrypt.err"}, [j EXCEPT !.mem = Resync(ev, j.via)])
+    ELSE IF ev.res # "Ok" THEN Vd(FALSE, {"encrypt.err"}, [j EXCEPT !.mem = Resync(cfg, ev, j.via)])
     ELSE LET t1 == IF ~ev.tenc \/ ev.nobj # cfg.nobj0 + 1 THEN {"encrypt.noencdict"} ELSE {}
              t2 == HiddenFails(cfg, ev.items)
          IN Vd(t1 \cup t2 = {}, IF t1 \cup t2 = {} THEN {"ok"} ELSE t1 \cup t2,
-              [j EXCEPT !.mem = IF t1 = {} THEN "enc" ELSE "lost"])
+              [j EXCEPT !.mem = IF t1 = {} THEN "enc" ELSE "lost", !.rev = FALSE])
 
 JudgeDecrypt(cfg, j, ev) ==
     IF j.mem # "enc"
@@ -260,18 +266,18 @@ JudgeDecrypt(cfg, j, ev) ==
     ELSE IF Right(ev.rel)
     THEN IF ev.res # "Ok"
          THEN Vd(FALSE, {RightFailClass(cfg, ev.rel, "either.rejected")}, [j EXCEPT !.mem = IF ev.same THEN "enc" ELSE "lost"])
-         ELSE LET t == RestoredTags(cfg, ev, j.via, ContentFailClass(cfg, ev.rel, "restored.content")) IN
+         ELSE LET t == RestoredTagsR(cfg, ev, j.via, ContentFailClass(cfg, ev.rel, "restored.content"), j.rev) IN
               IF t = {} THEN Vd(TRUE, {"ok-restored"}, [j EXCEPT !.mem = "plain"])
-              ELSE Vd(FALSE, t, [j EXCEPT !.mem = Resync(ev, j.via)])
+              ELSE Vd(FALSE, RevClass(j, t), [j EXCEPT !.mem = Resync(cfg, ev, j.via)])
     ELSE IF Wrong(ev.rel)
-    THEN IF ev.res = "Ok" THEN Vd(FALSE, {IF Unencodable(cfg, ev.rel) THEN "pw.unencodable.R234" ELSE "rejects.accepted"}, [j EXCEPT !.mem = Resync(ev, j.via)])
+    THEN IF ev.res = "Ok" THEN Vd(FALSE, {IF Unencodable(cfg, ev.rel) THEN "pw.unencodable.R234" ELSE "rejects.accepted"}, [j EXCEPT !.mem = Resync(cfg, ev, j.via)])
          ELSE IF ~ev.same THEN Vd(FALSE, {"rejects.mutated"}, [j EXCEPT !.mem = "lost"])
          ELSE Vd(TRUE, {"ok-rejected"}, j)
     ELSE \* an equivalent password: acceptance is not demanded, but an accepted one must restore
          IF ev.res = "Ok"
          THEN LET t == RestoredTags(cfg, ev, j.via, IF cfg.R <= 4 /\ ev.rel.u = "diff" THEN "owner.R234.key" ELSE "restored.content") IN
               IF t = {} THEN Vd(TRUE, {"ok-equiv-restored"}, [j EXCEPT !.mem = "plain"])
-              ELSE Vd(FALSE, t, [j EXCEPT !.mem = Resync(ev, j.via)])
+              ELSE Vd(FALSE, RevClass(j, t), [j EXCEPT !.mem = Resync(cfg, ev, j.via)])
          ELSE Vd(TRUE, {"ok-equiv-rejected"}, [j EXCEPT !.mem = IF ev.same THEN "enc" ELSE "lost"])
 
 JudgeAuth(cfg, j, ev) ==
@@ -288,29 +294,46 @@ JudgeAuth(cfg, j, ev) ==
             ELSE Vd(TRUE, {IF must THEN "ok-auth" ELSE IF Wrong(ev.rel) THEN "ok-auth-rejected" ELSE "ok-unjudged"}, j)
 
 JudgeSave(cfg, j, ev) ==
-    IF ev.res = "Ok" /\ ev.same THEN Vd(TRUE, {"ok-saved"}, [j EXCEPT !.disk = j.mem])
+    IF ev.res = "Ok" /\ ev.same THEN Vd(TRUE, {"ok-saved"}, [j EXCEPT !.disk = j.mem, !.rev = FALSE, !.inc = FALSE])
     ELSE Vd(TRUE, {"ok-unjudged"}, [j EXCEPT !.mem = IF ev.same THEN j.mem ELSE "lost", !.disk = "lost"])
 
 \* the loader may decrypt on its own, but only with the empty password, and only if that is the user or owner password
 LoadFailClass(cfg, dflt) ==
     IF cfg.R <= 4 /\ cfg.e.o \in {"same", "equiv"} /\ cfg.e.u = "diff" THEN "owner.R234.key" ELSE dflt
 
-JudgeLoad(cfg, j0, ev) ==
+JudgeLoad0(cfg, j0, ev) ==
     LET j == [j0 EXCEPT !.via = @ \/ ev.res = "Ok"] IN
     IF j.disk = "enc"
     THEN IF ev.res # "Ok" THEN Vd(FALSE, {LoadFailClass(cfg, "viafile.load.err")}, [j EXCEPT !.mem = IF ev.same THEN j.mem ELSE "lost"])
          ELSE IF ev.tenc
-         THEN LET t == (IF ev.nobj # cfg.nobj0 + 1 THEN {"viafile.objects"} ELSE {})
+         \* (j.rev: a file with object streams; the loader leaves their members to decrypt, they are not there yet)
+         THEN LET t == (IF ev.nobj # cfg.nobj0 + 1 /\ ~j.rev THEN {"viafile.objects"} ELSE {})
                        \cup {"viafile." \o c : c \in HiddenFails(cfg, ev.items) \cap {"hidden.other"}}   \* (the narrow classes were reported when Encrypt was judged)
               IN Vd(t = {}, IF t = {} THEN {"ok-loaded-enc"} ELSE t, [j EXCEPT !.mem = IF t = {} THEN "enc" ELSE "lost"])
-         ELSE IF Wrong(cfg.e) THEN Vd(FALSE, {IF Unencodable(cfg, cfg.e) THEN "pw.unencodable.R234" ELSE "rejects.load.autodecrypt"}, [j EXCEPT !.mem = Resync(ev, TRUE)])
-         ELSE LET t == RestoredTags(cfg, ev, TRUE, LoadFailClass(cfg, "restored.content")) IN
+         ELSE IF Wrong(cfg.e) THEN Vd(FALSE, {IF Unencodable(cfg, cfg.e) THEN "pw.unencodable.R234" ELSE "rejects.load.autodecrypt"}, [j EXCEPT !.mem = Resync(cfg, ev, TRUE)])
+         ELSE LET t == RestoredTagsR(cfg, ev, TRUE, LoadFailClass(cfg, "restored.content"), j.rev) IN
               IF t = {} THEN Vd(TRUE, {"ok-loaded-autodecrypted"}, [j EXCEPT !.mem = "plain"])
-              ELSE Vd(FALSE, {IF c = "owner.R234.key" THEN c ELSE "viafile." \o c : c \in t}, [j EXCEPT !.mem = Resync(ev, TRUE)])
+              ELSE Vd(FALSE, RevClass(j, {IF c \in {"restored.content", "restored.encdict"} THEN "viafile." \o c ELSE c : c \in t}), [j EXCEPT !.mem = Resync(cfg, ev, TRUE)])
     ELSE IF j.disk = "plain"
     THEN IF ev.res = "Ok" /\ ~ev.tenc /\ ev.nobj = cfg.nobj0 /\ AllEq(ev.items, TRUE) THEN Vd(TRUE, {"ok-loaded-plain"}, [j EXCEPT !.mem = "plain"])
-         ELSE Vd(TRUE, {"ok-plainfile-differs"}, [j EXCEPT !.mem = IF ev.res = "Ok" THEN Resync(ev, TRUE) ELSE j.mem])
-    ELSE Vd(TRUE, {"ok-unjudged"}, [j EXCEPT !.mem = IF ev.res = "Ok" THEN Resync(ev, TRUE) ELSE j.mem])
+         ELSE Vd(TRUE, {"ok-plainfile-differs"}, [j EXCEPT !.mem = IF ev.res = "Ok" THEN Resync(cfg, ev, TRUE) ELSE j.mem])
+    ELSE Vd(TRUE, {"ok-unjudged"}, [j EXCEPT !.mem = IF ev.res = "Ok" THEN Resync(cfg, ev, TRUE) ELSE j.mem])
+
+\* j.inc: the file was extended by an incremental update (IncrementalDocument::save_to) of the encrypted document that
+\* rewrote an object with the value it has: the document the file denotes is the same; a failure then has its own class
+JudgeLoad(cfg, j, ev) ==
+    LET v == JudgeLoad0(cfg, j, ev) IN
+    IF j.inc /\ ~v.ok THEN [v EXCEPT !.tags = {"incremental.encrypt.dropped"}] ELSE v
+
+\* SaveRev: the driver writes the encrypted form of the unencrypted in-memory document as another producer might - two
+\* revisions with object streams, one object moved from the first container to a new one (mem is not changed).
+\* SaveInc: an incremental update of the saved file; refusing it is acceptable.
+JudgeSaveOther(cfg, j, ev) ==
+    IF ev.call = "SaveRev"
+    THEN IF j.mem = "plain" /\ j.st /\ ev.res = "Ok" /\ ev.same THEN Vd(TRUE, {"ok-saved-rev"}, [j EXCEPT !.disk = "enc", !.rev = TRUE, !.inc = FALSE])
+         ELSE Vd(TRUE, {"ok-unjudged"}, [j EXCEPT !.disk = IF ev.res = "Ok" THEN "lost" ELSE @, !.mem = IF ev.same THEN @ ELSE "lost"])
+    ELSE IF ev.res = "Ok" /\ ev.same THEN Vd(TRUE, {"ok-saved-inc"}, [j EXCEPT !.inc = TRUE])
+         ELSE Vd(TRUE, {IF ev.same THEN "ok-refused" ELSE "ok-unjudged"}, [j EXCEPT !.mem = IF ev.same THEN @ ELSE "lost"])
 
 Judge(cfg, j, ev) ==
     CASE ev.call = "Encrypt"   -> JudgeEncrypt(cfg, j, ev)
@@ -318,10 +341,11 @@ Judge(cfg, j, ev) ==
       [] ev.call \in {"AuthUser", "AuthOwner", "Auth"} -> JudgeAuth(cfg, j, ev)
       [] ev.call = "Save"      -> JudgeSave(cfg, j, ev)
       [] ev.call = "Load"      -> JudgeLoad(cfg, j, ev)
+      [] ev.call \in {"SaveRev", "SaveInc"} -> JudgeSaveOther(cfg, j, ev)
       \* MakeState, and Rekey = MakeState with another configuration (cfg is the new one; only on a document without
       \* /Encrypt).  A configuration with an unrepresentable password may be refused.
       [] ev.call \in {"MakeState", "Rekey"} ->
-            LET jm == IF ev.call = "Rekey" THEN [j EXCEPT !.mem = IF ev.tenc THEN "lost" ELSE @, !.disk = "none"] ELSE j IN
+            LET jm == IF ev.call = "Rekey" THEN [j EXCEPT !.mem = IF ev.tenc THEN "lost" ELSE @, !.disk = "none", !.rev = FALSE, !.inc = FALSE] ELSE j IN
             IF ev.call = "Rekey" /\ ev.tenc /\ ev.res = "Err" /\ ev.same THEN Vd(TRUE, {"ok-unjudged"}, j)    \* not on an encrypted document
             ELSE IF ev.res = "Ok" /\ ev.same THEN Vd(TRUE, {"ok"}, [jm EXCEPT !.st = TRUE])
             ELSE IF ev.same /\ ~(cfg.urep /\ cfg.orep) THEN Vd(TRUE, {"ok-refused"}, [jm EXCEPT !.st = FALSE])
@@ -333,7 +357,7 @@ Judge(cfg, j, ev) ==
                                   ELSE Vd(TRUE, {"ok-unjudged"}, [jd EXCEPT !.mem = IF ev.same THEN j.mem ELSE "lost"])
       [] OTHER                 -> Vd(FALSE, {"unknown.call"}, j)
 
-J0 == [mem |-> "plain", disk |-> "none", via |-> FALSE, st |-> FALSE]
+J0 == [mem |-> "plain", disk |-> "none", via |-> FALSE, st |-> FALSE, rev |-> FALSE, inc |-> FALSE]
 
 \* The clauses by name (for the reader; Judge is their conjunction applied to one call):
 \*   Restored : Decrypt with a right password returns Ok, every item equals its plaintext, no /Encrypt, no extra object
@@ -346,8 +370,11 @@ J0 == [mem |-> "plain", disk |-> "none", via |-> FALSE, st |-> FALSE]
 (* Impl-shaped layer: lopdf's walk                                          *)
 (* st = [key, em, cf, stmf, strf] : what encrypt_object / decrypt_object read from EncryptionState *)
 
-ImplDefault(st, name) ==        \* get_stream_filter / get_string_filter: unwrap_or(Rc4CryptFilter)
-    LET m == CfMethod(st.cf, name) IN IF m = "none" THEN "RC4" ELSE m
+\* get_stream_filter / get_string_filter -> get_filter (since fix 7e2dedf): from V 4 on an absent or /Identity StmF / StrF
+\* is the standard Identity filter; otherwise crypt_filters.get(name).unwrap_or(Rc4CryptFilter)
+ImplDefault(st, name) ==
+    IF st.V >= 4 /\ name \in {"", "Identity"} THEN "Identity"
+    ELSE LET m == CfMethod(st.cf, name) IN IF m = "none" THEN "RC4" ELSE m
 
 ImplNamed(st, name) ==          \* override: crypt_filters.get(name) ... unwrap_or(IdentityCryptFilter)
     LET m == CfMethod(st.cf, name) IN IF m = "none" THEN "Identity" ELSE m
@@ -357,7 +384,8 @@ ImplStreamM(st, crypt) ==
       [] crypt.f = "name"   -> ImplNamed(st, crypt.n)
       [] crypt.f = "noname" -> "Identity"
       [] crypt.f = "arr"    -> IF Dev_dparr THEN ImplDefault(st, st.stmf) ELSE ImplNamed(st, crypt.n)
-      [] OTHER              -> ImplDefault(st, st.stmf)       \* "none", and "nodp": no DecodeParms dictionary -> no override
+      [] crypt.f = "nodp"   -> "Identity"                     \* (since fix adccfdb) Crypt without decode parameters: Identity
+      [] OTHER              -> ImplDefault(st, st.stmf)       \* "none": no Crypt filter entry
 
 \* (a metadata stream with EncryptMetadata false: as the code is the function returns at once; repaired: the data is
 \* kept, the dictionary is still walked - MetaKeep)
